@@ -29,6 +29,7 @@ META = {
 }
 
 TII = "tx3c::tii::"
+_KEEP = []
 
 
 def lowered(f, du, op):
@@ -46,46 +47,48 @@ def f_norm(F, res):
     sub = Result("C17")
     c06.f_norm(F, sub)
     res.add(sub.obs)
-    sites = [
-        ("infer_tx_params_schema", "transaction parameter"),
-        ("infer_env_schema", "environment entry"),
-        ("emit_tii", "party"),
-        ("infer_environment_values_from_dotfile", "environment value"),
-        ("infer_party_values_from_dotfile", "party value"),
-    ]
+    # every name-keyed insertion of the TII emitter: map inserts and `required.push` in emit_tii - the emitter crate's helper
+    # functions inlined, so that extracting or renaming a helper changes nothing - and in any other function of the crate.
+    # Constants are schema vocabulary; the transactions / profiles maps are keyed by transaction and profile names, which
+    # the IR does not normalise (recognised by role: the map flows into TiiFile.transactions / TiiFile.profiles).
+    E0 = F.fn(TII + "emit_tii")
+
+    def want(t, callee):
+        return callee["crate"] == "tx3c" and not callee.get("impl_trait") and not callee.get("trait_default") and len(callee["blocks"]) <= 400
+    _KEEP.append(want)
+    E = mir.inline_calls(F, E0, want=want, depth=3)
+    bodies = [E] + [c for c in F.fns.values() if c["crate"] == "tx3c" and not is_derive(c) and c["path"] != E0["path"] and c["path"] not in set(E.get("inlined", []))]
     n = 0
-    for fname, kind in sites:
-        f = F.fn(TII + fname)
+    for f in bodies:
         du = mir.DefUse(f)
-        ins = []
+        verbatim_maps = set()
+        for bj, sj, s2 in mir.stmts(f):
+            rv2 = s2["rv"]
+            if rv2["k"] == "agg" and rv2.get("adt") == "tx3c::tii::types::TiiFile":
+                for fld in ("transactions", "profiles"):
+                    if fld in rv2.get("fields", []):
+                        verbatim_maps |= {repr(x) for x in mir.provenance(f, du, rv2["ops"][rv2["fields"].index(fld)])}
         for bi, t in mir.calls(f):
             c = t.get("callee") or ""
-            if c.endswith("::insert") and ("serde_json::Map" in c or "HashMap" in c):
-                # skip the transactions / profiles maps of emit_tii: keyed by tx name / profile name, not by an argument name
-                if fname == "emit_tii":
-                    recv = {repr(x) for x in mir.provenance(f, du, t["args"][0])}
-                    parties_src = set()
-                    for bj, sj, s2 in mir.stmts(f):
-                        rv2 = s2["rv"]
-                        if rv2["k"] == "agg" and rv2.get("adt") == "tx3c::tii::types::TiiFile":
-                            parties_src |= {repr(x) for x in mir.provenance(f, du, rv2["ops"][rv2["fields"].index("parties")])}
-                    if not (recv & parties_src):
-                        continue
-                ins.append((bi, t, 1))
-            elif c.endswith("Vec::<T, A>::push") and fname in ("infer_tx_params_schema", "infer_env_schema"):
-                ins.append((bi, t, 1))
-        if not ins:
-            raise BrokenCheck("no key insertion found in " + fname)
-        for bi, t, argi in ins:
+            is_ins = c.endswith("::insert") and ("serde_json::Map" in c or "HashMap" in c or "BTreeMap" in c) and len(t["args"]) > 2
+            is_push = c.endswith("Vec::<T, A>::push") and len(t["args"]) > 1 and "String" in " ".join(t.get("gargs") or [])
+            if not (is_ins or is_push):
+                continue
+            org = mir.provenance(f, du, t["args"][1], stop_at_calls=lambda tt: "to_lowercase" in mir.callee_of(tt))
+            if org and all(x.kind == "const" for x in org):
+                continue   # schema vocabulary
+            if is_ins and ({repr(x) for x in mir.provenance(f, du, t["args"][0])} & verbatim_maps):
+                continue
             n += 1
-            okk, why = lowered(f, du, t["args"][argi])
-            what = "insert" if t["callee"].endswith("insert") else "required.push"
-            key = "%s%s|%s key (%s)" % (TII, fname, kind, what)
-            w = where(f, t["line"])
+            okk, why = lowered(f, du, t["args"][1])
+            owner = f["blocks"][bi].get("inl") or f["path"]
+            what = "insert" if is_ins else "push"
+            key = "%s|name key (%s)" % (owner, what)
+            w = where(F.fns.get(owner, f), t["line"])
             if okk:
                 res.add([ok("F-NORM", key, w, why)])
             else:
-                res.add([finding("F-NORM", key, w, "the %s name is published verbatim while the IR requires it lower-cased: a client supplying exactly what the TII declares is told the argument is missing" % kind)])
+                res.add([finding("F-NORM", key, w, "a name is published in the TII verbatim (%s) while the IR requires it lower-cased: a client supplying exactly what the TII declares is told the argument is missing" % why[:100])])
     res.count("TII key sites", n)
     res.floor("TII key sites", n, 7)
     # the server looks names up verbatim in find_params(tir)
@@ -103,7 +106,10 @@ def f_norm(F, res):
 
 
 def f_embed(F, res):
-    f = F.fn(TII + "emit_tii")
+    def want(t, callee):
+        return callee["crate"] == "tx3c" and not callee.get("impl_trait") and not callee.get("trait_default") and len(callee["blocks"]) <= 400
+    _KEEP.append(want)
+    f = mir.inline_calls(F, F.fn(TII + "emit_tii"), want=want, depth=3)
     du = mir.DefUse(f)
     w = where(f)
     aggs = [(bi, s) for bi, si, s in mir.stmts(f) if s["rv"]["k"] == "agg" and s["rv"].get("adt") == "tx3c::tii::types::TirEnvelope"]
@@ -126,7 +132,8 @@ def f_embed(F, res):
                     # ... and it is the name of the very transaction under whose key the envelope is published
                     keys = set()
                     for bj, t2 in mir.calls(f):
-                        if (t2.get("callee") or "").endswith("HashMap::<K, V, S, A>::insert") and len(t2["args"]) > 2:
+                        c2 = t2.get("callee") or ""
+                        if c2.endswith("::insert") and ("HashMap" in c2 or "BTreeMap" in c2) and len(t2["args"]) > 2:
                             vo2 = mir.provenance(f, du, t2["args"][2])
                             if any(x.kind == "agg" and x.rv.get("adt") == "tx3c::tii::types::Transaction" for x in vo2):
                                 keys |= {repr(x) for x in mir.provenance(f, du, t2["args"][1])}
